@@ -34,4 +34,6 @@ CONSTANTS
   CryptProbeDirectOnly = FALSE
   ParmRefLayouts = {}
   InlinedAsIs = FALSE
+  MaxChain = 10
+  BoundBeforeRead = FALSE
 INVARIANTS Once
